@@ -171,6 +171,9 @@ func TestHEVCKnownFindings(t *testing.T) {
 		default:
 			t.Logf("known finding %s reproduces: %s", kf.Switch, f.Msg)
 		}
+		if os.Getenv("C15_HEVC_WRITE_KF") == "" {
+			continue // the replay files (kf-* known, fixed-* repaired) are re-executed by the driver's replay tier
+		}
 		msg := ""
 		if f != nil {
 			msg = f.Msg
